@@ -25,7 +25,7 @@ package packet
 
 // Decision table of one iteration of the receive loop (oracle: the statement of C20).
 //@ func (*receiver).ReceivePackets$1
-//@   props C20 C12 C16
+//@   props C20 C12 C16 C03 C06
 //@   observe ReadPacketData, ProcessPacketData, time.Sleep
 //@   loop 0 row cancel:        [ctxdone ; close errc] -> exit
 //@   loop 0 row frame_ok:      [call ReadPacketData() as (data, ci, err) ; call ProcessPacketData(_, data, ci) as (perr)] when err == nil && perr == nil -> continue
@@ -40,7 +40,7 @@ package packet
 // C07: sender stage (one decision-table row per received packet)
 //
 //@ func FreeSerializeBuffer
-//@   props C07 C01 C05
+//@   props C07 C01 C05 C19
 //@   observe Clear, Put
 //@   entry row clearerr: [call Clear(buf) as (e)] when e != nil && ret == e -> exit
 //@   entry row ok:       [call Clear(buf) as (e) ; call Put(_, bind_x)] when e == nil && ret == nil && x == buf -> exit
@@ -50,7 +50,7 @@ package packet
 //@   ensures ret != nil
 
 //@ func (*sender).SendPackets$1
-//@   props C07 C12 C01 C16 C05
+//@   props C07 C12 C01 C16 C05 C19 C13
 //@   observe Bytes, WritePacketData, FreeSerializeBuffer
 //@   loop 0 row cancel: [ctxdone ; close done ; close errc] -> exit
 //@   loop 0 row closed: [recv in as (pkt, false) ; close done ; close errc] -> exit
@@ -67,12 +67,12 @@ package packet
 // ---------------------------------------------------------------------------------------------
 // C15: every frame written is charged to the limiter exactly once, before the write; reading is never charged
 //@ func (*rateLimitReadWriter).WritePacketData
-//@   props C15
+//@   props C15 C07 C01 C16
 //@   observe Take, WritePacketData
 //@   entry row charged: [call Take(rw.limiter) ; call WritePacketData(rw.ReadWriter, pkt) as (e)] when ret == e -> exit
 
 //@ func NewRateLimitReadWriter
-//@   props C15
+//@   props C15 C07 C01 C16
 //@   ensures isptr(ret, rateLimitReadWriter) && asptr(ret, rateLimitReadWriter).ReadWriter == delegate && asptr(ret, rateLimitReadWriter).limiter == limiter
 
 // outer functions of sender and receiver: fresh channels, one worker goroutine each, bound to exactly these channels
@@ -80,11 +80,11 @@ package packet
 //@   props C07
 //@   ensures isptr(ret, sender) && asptr(ret, sender).w == w
 //@ func NewReceiver
-//@   props C20 C06
+//@   props C20 C06 C03
 //@   ensures isptr(ret, receiver) && asptr(ret, receiver).sr == sr && asptr(ret, receiver).p == p
 //@ func (*sender).SendPackets
-//@   props C07 C12 C16
+//@   props C07 C12 C16 C19
 //@   entry row start: [go (*sender).SendPackets$1{done: bind_d, errc: bind_e, in: bind_i, ctx: bind_c, s: bind_s2}] when ret0 == d && ret1 == e && i == in && c == ctx && s2 == s && d != e -> exit
 //@ func (*receiver).ReceivePackets
-//@   props C20 C12 C16
+//@   props C20 C12 C16 C03 C06
 //@   entry row start: [go (*receiver).ReceivePackets$1{errc: bind_e, ctx: bind_c, r: bind_r2}] when ret == e && c == ctx && r2 == r -> exit
